@@ -50,7 +50,13 @@ func propC08(t *rapid.T) {
 	pristine := append([]byte(nil), raw...)
 	g := inst.NewGuard(raw, rapid.Bool().Draw(t, "atEnd"))
 	defer g.Free()
-	g.ReadOnly()
+	// 1 case in 4 keeps the mapping writable and allows the goroutine-parallel aggregates: a stray write
+	// from a worker goroutine is then caught by the byte comparison / the structural check instead of
+	// killing the process (faults are recoverable only on the test goroutine)
+	readOnly := rapid.IntRange(0, 3).Draw(t, "readOnly") != 0
+	if readOnly {
+		g.ReadOnly()
+	}
 	restore := inst.FaultsAsPanics()
 	defer restore()
 
@@ -244,6 +250,38 @@ func propC08(t *rapid.T) {
 				log("#%d=HeapXor(#%d,#%d)", z.id, x.id, y.id)
 			}
 		},
+		"parallel": func(t *rapid.T) {
+			if readOnly || detached {
+				t.Skip("parallel aggregates only over a writable, still mapped buffer")
+			}
+			n := rapid.IntRange(2, 4).Draw(t, "n")
+			args := make([]*roaring.Bitmap, n)
+			or, and := model.New(), model.New()
+			names := ""
+			for i := range args {
+				z := pick(t, "arg")
+				args[i] = z.b
+				names += fmt.Sprintf("#%d,", z.id)
+				or = model.Or(or, z.m)
+				if i == 0 {
+					and = z.m.Clone()
+				} else {
+					and = model.And(and, z.m)
+				}
+			}
+			w := rapid.SampledFrom([]int{0, 1, 2, 3}).Draw(t, "workers")
+			switch rapid.IntRange(0, 2).Draw(t, "fn") {
+			case 0:
+				z := add(roaring.ParOr(w, args...), or)
+				log("#%d=ParOr[%d](%s)", z.id, w, names)
+			case 1:
+				z := add(roaring.ParHeapOr(w, args...), or)
+				log("#%d=ParHeapOr[%d](%s)", z.id, w, names)
+			default:
+				z := add(roaring.ParAnd(w, args...), and)
+				log("#%d=ParAnd[%d](%s)", z.id, w, names)
+			}
+		},
 		"ordinary": func(t *rapid.T) {
 			// an ordinary bitmap on the view's keys, to be used as operand
 			os, rel := gen.Related(t, "o", bs, gen.KindsValid)
@@ -313,7 +351,9 @@ func propC08(t *rapid.T) {
 				z.b.CloneCopyOnWriteContainers()
 			}
 			// the buffer is now overwritten and given back
-			g.Writable()
+			if readOnly {
+				g.Writable()
+			}
 			for i := range g.Data {
 				g.Data[i] = 0xA5 ^ byte(i)
 			}
